@@ -98,6 +98,19 @@ CLAIMED['C08'] = {
     'design': '§5 C08',
 }
 
+CLAIMED['C05'] = {
+    'text': 'Static: the validator stack checked as a dominance / error-propagation structure: each cumulative validator '
+            'passes (success edge) every leaf checker of its level and the lower cumulative validator before Ok; the '
+            'guarantee-dependent link checkers are passed on the true edge of their predicates; no validator drops or '
+            'swallows a checker result; each diagnostic report reaches the leaves its validator reaches (one reasoned '
+            'asymmetry). Decides "cumulative = conjunction of levels" and "nothing is skipped or swallowed"; not that each '
+            'leaf detects its fault class.',
+    'note': 'Trusted: rustc MIR; the Level 1-3 leaf tables in engine/rules/tables.py; a checker returning a verdict '
+            'record (Euler) is only required to be called. The single-fault injection of the property is not simulated.',
+    'technique': 'must-pass-through (dominance) + result-flow (no-drop) checks over rustc MIR',
+    'design': '§5 C05',
+}
+
 NOT_APPLICABLE = {
     'C04': 'verdict is the sign of floating-point in-sphere determinants vs exact arithmetic (numerical); the only structural handle is a delegation shape that a correct re-implementation would break',
     'C10': 'correctness of point location is a sign pattern of orientation determinants along a walk (geometric); loop bound is covered under C19',
